@@ -67,6 +67,22 @@ def alias_feature(P, steps):
     return []
 
 
+def overwrite_feature(P, steps):
+    """a start-time effect writes a BOUNDED numeric fluent that an end-time effect of the same action writes again
+    (the state between the two effects exists in the temporal plan only)"""
+    acts = {a["name"]: a for a in P["actions"]}
+    bounded = {f["name"] for f in P["fluents"] if f["type"]["k"] in ("int", "real") and (f["type"]["lo"]["k"] != "none" or f["type"]["hi"]["k"] != "none")}
+    for st in steps:
+        a = acts[st["a"]]
+        if a["kind"] != "dur":
+            continue
+        starts = {e["e"]["f"]["name"] for e in a["effects"] if e["t"]["from"] == "start"}
+        ends = {e["e"]["f"]["name"] for e in a["effects"] if e["t"]["from"] == "end"}
+        if starts & ends & bounded:
+            return ["start-and-end-effect-on-bounded-fluent"]
+    return []
+
+
 def worker(job):
     cid, P, L, cap, seed = job
     from unified_planning.engines.compilers.timed_to_sequential import TimedToSequential
@@ -173,6 +189,8 @@ def run(ctx):
             sig = clause + ("|" + ",".join(feats) if feats and "duration" in clause else "")
             if "duration" not in clause and pl["tau"]:
                 al = alias_feature(r["P"], pl["tau"])
+                if not al and clause.endswith("-bnds"):
+                    al = overwrite_feature(r["P"], pl["tau"])
                 sig += ("|" + ",".join(al)) if al else ""
             ctx.violation(sig, "C28: %s" % clause, {"clause": clause, "problem": r["P"], "compiled": r["Q"], "plan": pl})
     ctx.cov["evaluations"] = nplans
